@@ -393,10 +393,13 @@ Definition call_render (c : callinfo) : option rendered :=
 
 (* CallInfo.read on a rendered call: [implicit]/[ctor] are what rope's type inference says about the
    callee (method called on an instance / class called); None = IndexError (definition without
-   parameters for a constructor; AssertionError `assert kw.arg` of _FunctionCallParser.get_parameters
-   on a call that contains **mapping, which makes the `**` branch of CallInfo.read unreachable) *)
-Definition call_read (d : definfo) (implicit ctor : bool) (r : rendered) : option callinfo :=
-  if is_some (r_kwstar r) then None else
+   parameters for a constructor).  [kwfix] = true is the current code (commit 091d633: a **mapping of
+   the call is carried through as keywords_arg); [kwfix] = false is the code as first found, where
+   `assert kw.arg` of _FunctionCallParser.get_parameters fired on such a call (AssertionError, None
+   here) and the `**` branch of CallInfo.read was unreachable; kept to document the fixed defect.  The
+   harness evaluates kwfix = true and reports a VIOLATION if the assertion is back. *)
+Definition call_read (kwfix : bool) (d : definfo) (implicit ctor : bool) (r : rendered) : option callinfo :=
+  if is_some (r_kwstar r) && negb kwfix then None else
   let args0 := match r_recv r with
                | Some a => if implicit then a :: r_pos r else r_pos r
                | None => r_pos r
@@ -431,9 +434,9 @@ Record psite := mkPsite { ps_callee : callee; ps_implicit : bool; ps_ctor : bool
 
 (* _ChangeCallsInModule.get_changed_module for one call occurrence: found -> read, change, print;
    not found -> the text stays.  None = rope raises. *)
-Definition change_site (rdel is_init : bool) (d : definfo) (cs : list changer) (s : psite) : option rendered :=
+Definition change_site (kwfix rdel is_init : bool) (d : definfo) (cs : list changer) (s : psite) : option rendered :=
   if finder_finds is_init (ps_callee s) then
-    match call_read d (ps_implicit s) (ps_ctor s) (ps_call s) with
+    match call_read kwfix d (ps_implicit s) (ps_ctor s) (ps_call s) with
     | None => None
     | Some c => match change_call rdel cs d c with Some c' => call_render c' | None => None end
     end
